@@ -1486,4 +1486,162 @@ theorem getNextWork_started (s : State) (i : Nat) : (getNextWork s i).started = 
   · rfl
   · split <;> rfl
 
+/-! ### termination measure for API calls (strict relation) -/
+
+def wWeight : WPc → Nat
+  | .start => 1
+  | .waitQ true => 1
+  | .waitQ false => 0
+  | .working _ => 2
+  | .finishing _ _ => 1
+  | .exited => 0
+
+def mWeight (n : Nat) : MPc → Nat
+  | .idle => 0
+  | .submitLock _ => 1
+  | .deqLock => 2
+  | .deqWait true => 1
+  | .deqWait false => 0
+  | .statusLock => 1
+  | .destroyLock => 3 * n + 1
+  | .join i => n - i
+  | .finished => 0
+
+/-- work still to be done before every thread is blocked or gone: 6 per queued item, 2 per worker step still
+possible without new input, plus the main thread's own remaining steps inside the current call -/
+def mu (s : State) : Nat :=
+  6 * s.queue.length + 2 * (s.workers.map wWeight).sum + mWeight s.workers.length s.main
+
+theorem sum_wWeight_wakeAll (ws : List WPc) : ((wakeAll ws).map wWeight).sum ≤ (ws.map wWeight).sum + ws.length := by
+  induction ws with
+  | nil => simp [wakeAll]
+  | cons pc r ih =>
+    simp only [wakeAll, map_cons, sum_cons, length_cons] at ih ⊢
+    have : wWeight (wakeW pc) ≤ wWeight pc + 1 := by
+      cases pc with
+      | waitQ sig => cases sig <;> simp [wakeW, wWeight]
+      | _ => simp [wakeW, wWeight]
+    omega
+
+theorem mWeight_wakeMain_le (n : Nat) (m : MPc) : mWeight n (wakeMain m) ≤ mWeight n m + 1 := by
+  cases m with
+  | deqWait sig => cases sig <;> simp [wakeMain, mWeight]
+  | _ => simp [wakeMain]
+
+theorem mu_getNextWork (s : State) (i : Nat) (pc : WPc) (hi : s.workers[i]? = some pc) :
+    mu (getNextWork s i) + 2 * wWeight pc ≤ mu s := by
+  have hsum := fun b => sum_map_set wWeight s.workers i pc b hi
+  unfold getNextWork
+  split
+  · have := hsum .exited
+    simp only [mu, length_set, wWeight] at this ⊢
+    omega
+  · split
+    · have := hsum (.waitQ false)
+      simp only [mu, length_set, wWeight] at this ⊢
+      omega
+    · rename_i it q hq
+      have := hsum (.working it)
+      simp only [mu, length_set, wWeight, hq, length_cons] at this ⊢
+      omega
+
+/-- every strict step that leaves the main thread inside its API call decreases the measure -/
+theorem mu_decreases (cfg : Cfg) {s s' : State} (c : Choice) (hs : stepStrict cfg s c = some s')
+    (hin : mainInCall s = true) (hin' : mainInCall s' = true) : mu s' < mu s := by
+  unfold stepStrict at hs
+  split at hs
+  case isFalse => simp at hs
+  rename_i hstrict
+  cases c with
+  | worker i spur =>
+    have hsp : spur = false := by cases spur <;> simp_all [Choice.strict]
+    subst hsp
+    simp only [step] at hs
+    unfold stepWorker at hs
+    split at hs
+    · simp at hs
+    · rename_i hi
+      simp only [Bool.false_eq_true, if_false, Option.some.injEq] at hs; subst hs
+      have := (mu_getNextWork s i _ hi)
+      simp only [wWeight] at this; omega
+    · rename_i sig hi
+      cases sig with
+      | false => simp at hs
+      | true =>
+        simp only [Bool.true_bne, Bool.not_false, if_true, Option.some.injEq] at hs
+        subst hs
+        have := (mu_getNextWork s i _ hi)
+        simp only [wWeight] at this; omega
+    · rename_i it hi
+      simp only [Bool.false_eq_true, if_false, Option.some.injEq] at hs; subst hs
+      have := sum_map_set wWeight s.workers i _ (.finishing it (cfg.rcOf it.data)) hi
+      simp only [mu, length_set, wWeight] at this ⊢
+      omega
+    · rename_i it rc hi
+      simp only [Bool.false_eq_true, if_false, Option.some.injEq] at hs; subst hs
+      have h1 := sum_map_set wWeight s.workers i _ .start hi
+      have h2 := (mu_getNextWork
+        { s with done := insertDone it s.done, status := if rc ≠ 0 ∧ s.status = 0 then rc else s.status,
+                 main := wakeMain s.main, workers := s.workers.set i .start } i .start
+        (getElem?_set_self' _ _ _ _ hi))
+      have h3 := mWeight_wakeMain_le s.workers.length s.main
+      simp only [mu, length_set, wWeight] at h1 h2 h3 ⊢
+      omega
+    · simp at hs
+  | main mc =>
+    cases mc with
+    | call op =>
+      -- the main thread is inside a call: it cannot make another one
+      simp only [step] at hs
+      unfold stepMain at hs
+      unfold mainInCall at hin
+      split at hs <;> simp_all
+    | cont spur =>
+      have hsp : spur = false := by cases spur <;> simp_all [Choice.strict]
+      subst hsp
+      simp only [step] at hs
+      cases hm : s.main with
+      | idle => simp [mainInCall, hm] at hin
+      | finished => simp [mainInCall, hm] at hin
+      | submitLock d =>
+        simp only [stepMain, hm, Option.some.injEq] at hs; subst hs
+        have : (submitBody s d).main = .idle := by unfold submitBody; rfl
+        simp [mainInCall, this] at hin'
+      | deqLock =>
+        simp only [stepMain, hm, Option.some.injEq] at hs; subst hs
+        revert hin'
+        unfold deqTry deqWaitOrNull deqReturn
+        split <;> (try split) <;> (try split) <;> simp [mainInCall, mu, mWeight, hm]
+      | deqWait sig =>
+        cases sig with
+        | false => simp [stepMain, hm] at hs
+        | true =>
+          simp only [stepMain, hm, Bool.true_bne, Bool.not_false, if_true,
+            Option.some.injEq] at hs
+          subst hs
+          revert hin'
+          unfold deqTry deqWaitOrNull deqReturn
+          split <;> (try split) <;> (try split) <;> simp [mainInCall, mu, mWeight, hm]
+      | statusLock =>
+        simp only [stepMain, hm, Option.some.injEq] at hs; subst hs
+        simp [mainInCall] at hin'
+      | destroyLock =>
+        simp only [stepMain, hm, Option.some.injEq] at hs; subst hs
+        have hw := sum_wWeight_wakeAll s.workers
+        by_cases h0 : s.workers.length = 0
+        · simp [mainInCall, h0] at hin'
+        · simp only [mu, hm, mWeight, h0, if_false, wakeAll, length_map] at hw ⊢
+          omega
+      | join i =>
+        simp only [stepMain, hm] at hs
+        split at hs
+        · split at hs
+          · rename_i hlt
+            simp only [Option.some.injEq] at hs; subst hs
+            simp only [mu, hm, mWeight]
+            omega
+          · simp only [Option.some.injEq] at hs; subst hs
+            simp [mainInCall] at hin'
+        · simp at hs
+
 end Sqfs.Pool
